@@ -37,7 +37,93 @@ def registry():
               'that names the registered key'))
     import contracts.rt as rt
     reg.specfns['ghost_key'] = rt.registry().specfns['ghost_key']
+    _translator(reg, cellq, U, F)
     return reg
+
+
+def _translator(reg, cellq, U, F):
+    """CellTranslator._set_cell_to_context over an ABSTRACT formula translator: translating a formula may register further
+    cells (old entries kept), leaves the in-progress marker set as it found it, may raise."""
+    import z3
+    from pv import sorts as S
+    from pv.sorts import V, is_
+    from pv.symexec import fresh, Flow, NotFormed
+    from pv.symspec import to_v
+    from pv import symexpr as E
+    reg.spec('py_repr', lambda v: z3.Function('py_repr', S.V, S.S)(to_v(v)), None, 'repr(value)')
+    reg.spec('is_formula', lambda v: z3.And(is_('Str', to_v(v)), z3.PrefixOf(z3.StringVal('='), S.V.sval(to_v(v)))), None,
+             'a text starting with "="')
+    tr_fails = z3.Function('formula_translation_fails', S.V, S.B)
+
+    def placeholder(ex, st, args, kwargs, node):
+        raise NotFormed('placeholder')
+    for nm in ('Lexer', 'AstBuilder', 'EntryPointTokenTranslator'):
+        reg.external(nm, placeholder, f'{nm}: only the call below is modelled')
+
+    def lexer_parse(ex, st, args, kwargs, node):
+        return [(st, fresh('lexed'))]
+    reg.external('Lexer.parse', lexer_parse, 'Lexer.parse(text, in_cell): some token list or an exception (free)')
+
+    def ast_parse(ex, st, args, kwargs, node):
+        v = ex.need_term(args[0])
+        return [(st, fresh('tree')), Flow('exc', st, 'E2PyclParserException')]
+    reg.external('AstBuilder.parse', ast_parse, 'AstBuilder.parse: a tree or the parser exception (contract: C05)')
+
+    def ep_translate(ex, st, args, kwargs, node):
+        tree, excel, ctx = args
+        old_tr = z3.Select(st.field('_cell_translations'), V.oid(ctx))
+        new_tr = V.Dict(fresh('did', S.I))
+        k = fresh('k')
+        s2 = ex.heap_store(st, '_cell_translations', V.oid(ctx), new_tr)
+        s2 = s2.add(z3.ForAll([k], z3.Implies(S.dhas(old_tr, k), z3.And(S.dhas(new_tr, k), S.dget(new_tr, k) == S.dget(old_tr, k))),
+                              patterns=[S.dhas(new_tr, k)]), S.dcount(new_tr) >= S.dcount(old_tr))
+        code = fresh('code')
+        return [(s2.add(is_('Str', code)), code), Flow('exc', s2, 'E2PyclParserException'), Flow('exc', s2, 'Exception')]
+    reg.external('EntryPointTokenTranslator.translate', ep_translate,
+                 'EntryPointTokenTranslator.translate(tree, excel, context): returns code text; may register further cells '
+                 '(existing entries are kept) and leaves context._cells_in_translation as it found it (the recursion is '
+                 'well-bracketed: this very contract, as induction hypothesis); may raise')
+
+    def fill_cell(ex, st, args, kwargs, node):
+        excel, cell = args
+        s2 = st
+        for f in ('title', 'column', 'row', 'value'):
+            s2 = ex.heap_store(s2, f, V.oid(cell), fresh(f))
+        s2 = ex.heap_store(s2, '_handled_identifiers', V.oid(cell), S.TRUE)
+        o = V.oid(cell)
+        s2 = s2.add(is_('Int', z3.Select(s2.field('title'), o)), is_('Int', z3.Select(s2.field('column'), o)),
+                    is_('Int', z3.Select(s2.field('row'), o)))
+        return [(s2, cell), Flow('exc', st, 'E2PyclParserException'), Flow('exc', st, 'E2PyclCellException')]
+    reg.external('method:fill_cell', fill_cell, 'excel.fill_cell(cell): normalises the identifiers to integers and fills the value, or '
+                 'raises a library exception (contract: C02 Excel.fill_cell / handle_cell)')
+    marks_same = ('all(has(context._cells_in_translation, k) for k in keys(old(context._cells_in_translation))) and '
+                  'all(has(old(context._cells_in_translation), k) for k in keys(context._cells_in_translation))')
+    reg.add(Contract(
+        'CellTranslator._set_cell_to_context', 'repo:translators/cell_translator.py:CellTranslator._set_cell_to_context',
+        {'cell': 'obj:Cell', 'excel': 'V', 'context': 'obj:Context'}, self_class='CellTranslator',
+        fields=F, inline=['uid', 'has_handled_identifiers'], callees={'get_cell': 'Context.get_cell', 'set_cell': 'Context.set_cell'},
+        requires=['allocated(cell) and is_bool(cell._handled_identifiers) and cell != context and '
+                  'implies(Bv(cell._handled_identifiers), is_int(cell.title) and is_int(cell.column) and is_int(cell.row))',
+                  'is_dict(context._cell_translations) and is_dict(context._cells_in_translation)'],
+        ensures={
+            'registered': f'has(context._cell_translations, {U})',
+            'existing_entries_kept': 'implies(has(old(context._cell_translations), ghost_key()), '
+                                     'has(context._cell_translations, ghost_key()) and '
+                                     'get(context._cell_translations, ghost_key()) == get(old(context._cell_translations), ghost_key()))',
+            'constant_is_repr': f'implies(not has(old(context._cell_translations), {U}) and not is_formula(cell.value), '
+                                f'get(context._cell_translations, {U}) == ite(is_none(cell.value), "self.EmptyCell()", py_repr(cell.value)))',
+            'marker_restored': marks_same,
+            'handled': 'Bv(cell._handled_identifiers) and is_int(cell.title) and is_int(cell.column) and is_int(cell.row)',
+        },
+        ensures_on_raise={'existing_entries_kept': 'implies(has(old(context._cell_translations), ghost_key()), '
+                                                   'has(context._cell_translations, ghost_key()))'},
+        free_exceptions=['E2PyclParserException', 'E2PyclCellException', 'Exception'],
+        modifies=['_cell_translations', '_cells_in_translation', 'title', 'column', 'row', 'value', '_handled_identifiers'],
+        notes='after translating a cell its uid is a key of the translation map (so every reference produced for it names a '
+              'generated method), earlier entries are never removed or changed, a constant cell is emitted as repr(value) / '
+              'EmptyCell(), and the in-progress marker set is left as found; a cell that is already in progress raises the '
+              'library parser exception (cycle) before descending'))
+
 
 
 def _ref(u):
